@@ -63,3 +63,48 @@ pub fn c20_body() {
     let after_conn = match peek(&n.dbs, "d", "$connections") { Some(v) => v.value, None => String::from("0") };
     vsym::check("http.connection-released", after_conn == before_conn);
 }
+
+/// the real worker loop of start_http_client over the tiny_http shim: two consecutive requests on one node (A) and the second
+/// request alone on an identically prepared node (B). The first request does not change the data; the reply to the second
+/// request must be the same on both nodes (nothing of request 1 - a queued line, a selection, a login - leaks into request 2),
+/// and when a request has ended its subscriptions and its connection count are released.
+fn serve(n: &Node, bodies: &Vec<String>) -> Vec<String> {
+    tiny_http::http_requests().clear(); tiny_http::http_responses().clear();
+    for b in bodies.iter() { tiny_http::http_requests().push(b.clone()); }
+    let dbs = n.dbs.clone();
+    let r = vsym::run_until_end(move || { crate::network::http_ops::start_http_client(dbs, vstd::sync::Arc::new(String::from("0.0.0.0:0"))); });
+    vsym::check("server.workers-wait-for-requests", r.is_none());
+    tiny_http::http_responses().clone()
+}
+fn prepared(name: &str) -> Node {
+    let n = mk_node(name, 1u128, ClusterRole::Primary);
+    mk_db(&n.dbs, "d", "none");
+    poke(&n.dbs, "d", "k", &String::from("v0"), 5, ValueStatus::Ok, 0, 0);
+    n
+}
+pub fn c20_server() {
+    let a = prepared("n1"); let b = prepared("n1");
+    // request 1: statements that leave the data alone (refusals, reads, a login, a selection, a subscription)
+    let first = ["get k", "auth user bad", "auth user pwd", "use-db d tok", "use-db d bad", "keys", "watch k", "get $$token", "increment k"];
+    let second = ["use-db d tok", "get k", "auth user pwd", "keys", "set k nv", "get $$token", "create-db e tok"];
+    let mut r1 = String::new();
+    let n1 = vsym::param("first", 2);
+    let mut i = 0;
+    while i < n1 { let k = vsym::choice("first-stmt", first.len()); vsym::tag(&["a", &i.to_string(), "=", first[k]].concat()); if i > 0 { r1.push_str(";"); } r1.push_str(first[k]); i += 1; }
+    let mut r2 = String::new();
+    let n2 = vsym::param("second", 2);
+    let mut i = 0;
+    while i < n2 { let k = vsym::choice("second-stmt", second.len()); vsym::tag(&["b", &i.to_string(), "=", second[k]].concat()); if i > 0 { r2.push_str(";"); } r2.push_str(second[k]); i += 1; }
+    let ra = serve(&a, &vec![r1.clone(), r2.clone()]);
+    let rb = serve(&b, &vec![r2.clone()]);
+    vsym::check("server.one-response-per-request", ra.len() == 2 && rb.len() == 1);
+    if ra.len() == 2 && rb.len() == 1 {
+        vsym::check("server.second-request-answered-as-if-alone", ra[1] == rb[0]);
+    }
+    // released when the request ends
+    let conns = { let m = a.dbs.map.read().unwrap(); m.get(&String::from("d")).unwrap().connections_count() };
+    vsym::check("server.connections-released", conns == 0);
+    let watchers = { let m = a.dbs.map.read().unwrap(); let d = m.get(&String::from("d")).unwrap(); let w = d.watchers.map.read().unwrap(); let mut t = 0; for (_k, v) in w.iter() { t += v.len(); } t };
+    vsym::check("server.subscriptions-released", watchers == 0);
+    vsym::check("server.data-same-on-both-nodes", match (peek(&a.dbs, "d", "k"), peek(&b.dbs, "d", "k")) { (Some(x), Some(y)) => x.value == y.value && x.version == y.version, (None, None) => true, _ => false });
+}
